@@ -2,6 +2,7 @@ package main
 
 import (
 	"encoding/json"
+	"path/filepath"
 	"flag"
 	"runtime/pprof"
 	"fmt"
@@ -10,7 +11,7 @@ import (
 	"time"
 )
 
-const harnessRoot = "/verif/harness"
+var harnessRoot = filepath.Join(verifDir, "harness")
 
 func main() {
 	if len(os.Args) < 2 {
